@@ -213,11 +213,6 @@ theorem augEdge_of_biEdge_augment (A : MG α) (hA : A.WF) (u v : α)
       rcases h with h | h
       · exact mem_pairs_sub h
       · exact (mem_pairs_sub h).symm
-    obtain ⟨d, hd, _, x, hx, hux⟩ := mem_closures A cl u hcl huv.1
-    obtain ⟨d', hd', hcl', y, hy, hvy⟩ := mem_closures A cl v hcl huv.2
-    -- both closures are the same list `cl`; its district part determines the district
-    have hxn : x ∈ A.nodes := (districts_cover A hA x).2 ⟨d, hd, hx⟩
-    have hyn : y ∈ A.nodes := (districts_cover A hA y).2 ⟨d', hd', hy⟩
     obtain ⟨d0, hd0, hcl0, x0, hx0, hux0⟩ := mem_closures A cl u hcl huv.1
     -- use one decomposition for both endpoints
     obtain ⟨y0, hy0, hvy0⟩ : ∃ y0 ∈ d0, v = y0 ∨ A.DiEdge v y0 := by
